@@ -81,6 +81,18 @@ RULE = (
     "mutate_during_batch (also: delete the already-read file; _get_hashes / build(dir) / build_entries through a harness-owned "
     "LocalFileSystem subclass that rewrites an already-read file of the batch when a later one is "
     "opened; only later lookups of that file are judged), "
+    "mutate_at_open (a file changes between the library's stat and its open(): one call of "
+    "hash_file(state=) without / with caller info, index md5() of a freshly built index, staging "
+    "build(file, dry_run), _get_hashes / build(dir, dry_run) / build_entries over the workspace runs "
+    "through a harness-owned LocalFileSystem subclass that, at the first open() for reading of the "
+    "drawn file (regular or behind a symlink) and before the handle is returned, applies a drawn "
+    "mutation + clock step: append of {1..70000} bytes, truncate, same-size rewrite, atomic replace "
+    "by a larger / smaller / equal-sized file; beforehand an ordinary write may give the file a "
+    "size from {100, 1 MiB - {1, 16, 512, 4096}, 1 MiB, 1 MiB + 1}, so that appends also carry it "
+    "from just below the library's 1 MiB read chunk to exactly / beyond it; contents are cheap "
+    "16-byte blocks without CR; the hash returned by that call is not judged for the file; right "
+    "after it State.get without / with info, get_many, hash_file, build+update+md5 and one drawn "
+    "probe route, and every later query of the history, are judged as ever), "
     "planted foreign rows with a matching token under a drawn algorithm name from {md5, "
     "md5-dos2unix, sha256, sha1, blake2b} (version HASH_VERSION+k with a placeholder value, "
     "version-less legacy rows and current-version rows with honest values; optionally looked up at "
@@ -91,7 +103,7 @@ RULE = (
     "get_many == element-wise get (order, meta, hash); newer-version entries, deleted files and "
     "non-local filesystems are misses. Non-trivial = a query answered from the cache for a path "
     "mutated earlier in the history, or a batch >= 1000, or an update() after a mutation, or a "
-    "mutation that fired during a batch call, or >= 2 files with distinct contents hashed in the "
+    "mutation that fired during a batch call or at the open() of a hashing call, or >= 2 files with distinct contents hashed in the "
     "pool, or a recorded batch with a vanished item, or a mutation of a checked-out workspace, or a "
     "second checkout that re-created a file whose hash changed; "
     "distinct "
@@ -102,9 +114,17 @@ ASSUMPTIONS = [
     "of the file whose bytes are hashed (for a symlink: its target), as fs.info reports it, differs "
     "from every triple that file held before; link targets are never deleted (no broken links)",
     "caller-supplied stat info is always read at the instant of the call (never older)",
-    "no mutation happens between a library call's stat of a file and the end of its read of that "
-    "file; a mutation during a batch call hits only a file that call has finished reading, and the "
-    "hashes returned by that very call are not judged for it",
+    "no mutation happens between a library call's open() of a file and the end of its read of that "
+    "file (a mutation between two read() calls is outside the domain); a mutation between the "
+    "call's stat and its open() (mutate_at_open) is complete, clock step included, before the "
+    "handle is returned, so the call reads the post-mutation bytes in full; a mutation during a "
+    "batch call otherwise hits only a file that call has finished reading; in both cases the "
+    "hashes returned by that very call are not judged for the changed file - only what later "
+    "lookups are served. Grounds for mutate_at_open on the pinned code: without caller info "
+    "State.save() stats the file after hashing, i.e. records the digest of the bytes read to EOF "
+    "under the token those bytes have; with caller info (hash_file(info=), build, _get_hashes, "
+    "build_entries) the entry is recorded under the PRE-mutation token, which by the premise no "
+    "later state of the file matches: a miss, never a stale hit",
     "the hold-back inside the wrapper around build.hash_file only shapes the pool's completion "
     "order; verdicts do not depend on timing",
     "hashlib and vd.ref.ref_hash (md5-dos2unix sniffing rule) are the trusted reference",
@@ -1406,9 +1426,11 @@ class C13Machine(TraceMachine):
 
     @rule(slot=qslot_s, route=ao_route_s, algo=algo_s, pre=ao_pre_s, mut=ao_mut_s, n=ao_n_s,
           clock=clock_s, prime=st.sampled_from([None, None, None, None, 0, 1, 2]),
-          infos=st.sampled_from(["none", "none", "all"]), probe=probe_s, palgo=algo_s)
+          infos=st.sampled_from(["none", "none", "all"]), probe=probe_s, palgo=algo_s,
+          shrink=st.sampled_from([True, True, False]))
     @traced
-    def mutate_at_open(self, slot, route, algo, pre, mut, n, clock, prime, infos, probe, palgo):
+    def mutate_at_open(self, slot, route, algo, pre, mut, n, clock, prime, infos, probe, palgo,
+                       shrink=False):
         """Another writer changes a file between the library's stat of it and its open(): the call
         goes through AtOpenFS, which applies the drawn mutation (append - also from just below the
         1 MiB read chunk to beyond it -, truncate, same-size rewrite, atomic replace; then the
@@ -1419,7 +1441,7 @@ class C13Machine(TraceMachine):
         route's answer must be the digest of the file's bytes at that instant (a call that stat()s
         the file again after hashing may record the hash of the bytes it read under that token; a
         call that records under the caller's earlier stat info leaves an entry no later token
-        matches)."""
+        matches). shrink: afterwards an ordinary write gives a file > 64 KiB 48 bytes again."""
         from dvc_data.hashfile.build import _get_hashes, build
         from dvc_data.hashfile.hash import hash_file
         from dvc_data.index.build import build as ibuild
@@ -1492,6 +1514,11 @@ class C13Machine(TraceMachine):
         self.r_hash_file(p, name, infos == "all")
         self.r_index_update(name, True)
         self.probe(p, probe, palgo)
+        if shrink and os.path.getsize(target) > 65536:
+            # an ordinary later write makes the file small again (keeps the rest of the history
+            # cheap; two histories in three - the others go on querying the large file)
+            self.do_sized(target, "set", 48, ["d", 2500])
+            self.r_get(p, False)
 
     # ---- symlinked entries: the bytes (and the token) are those of the link's target -----------
     @rule(link=st.integers(0, 1), how=st.sampled_from(["in_place", "in_place", "replace"]),
